@@ -46,6 +46,13 @@ func (b *Broker) Published() []Pub {
 	return append([]Pub{}, b.Pubs...)
 }
 
+// Reset forgets the recorded publishes.
+func (b *Broker) Reset() {
+	b.mu.Lock()
+	defer b.mu.Unlock()
+	b.Pubs = nil
+}
+
 func readLen(r *bufio.Reader) (int, error) {
 	mul, val := 1, 0
 	for {
